@@ -810,7 +810,90 @@ func c18RacePass(c *bx.Ctx) {
 	c.Count("race-pass-clean", 1)
 }
 
+// c18Purity runs a fixed short history on every value of D (and on TWCC values whose deltas are
+// not multiples of 250us): the packet, including the spare capacity of its slices, must be the
+// same before and after every operation and repeated operations must return identical results.
+func c18Purity(c *bx.Ctx) {
+	c.Space("purity-over-D")
+	one := func(v ref.V) {
+		p := v.P
+		ref.PadCapacity(p, 2)
+		xr := hasXR(p)
+		snap := ref.DumpCap(p)
+		type step struct {
+			name string
+			run  func() string
+		}
+		steps := []step{
+			{"MarshalSize", func() string { return fmt.Sprint(p.MarshalSize()) }},
+			{"DestinationSSRC", func() string { return fmt.Sprintf("%x", p.DestinationSSRC()) }},
+			{"Format+v", func() string { return fmt.Sprintf("%+v", p) }},
+			{"Marshal", func() string { b, err := p.Marshal(); return fmt.Sprintf("%x|%v", b, err) }},
+			{"Marshal", func() string { b, err := p.Marshal(); return fmt.Sprintf("%x|%v", b, err) }},
+			{"Format+v", func() string { return fmt.Sprintf("%+v", p) }},
+			{"DestinationSSRC", func() string { return fmt.Sprintf("%x", p.DestinationSSRC()) }},
+			{"MarshalSize", func() string { return fmt.Sprint(p.MarshalSize()) }},
+		}
+		first := map[string]string{}
+		filled := false
+		for i, st := range steps {
+			var r string
+			msg, pan := bx.Guard(func() { r = st.run() })
+			c.T(1)
+			rp := func(exp, obs string) bx.Replay {
+				return bx.Replay{Entry: "purity", Value: valueString(v), Ops: fmt.Sprintf("step %d: %s", i, st.name), Expected: exp, Observed: obs}
+			}
+			if pan {
+				return // totality is C17's / C02's matter
+			}
+			_ = msg
+			now := ref.DumpCap(p)
+			if now != snap {
+				if xr && st.name == "Marshal" && !filled {
+					snap, filled = now, true // documented: the first Marshal fills XR block headers
+					first = map[string]string{}
+				} else {
+					c.Report(keyJoin("C18/purity", v.Type, st.name, "packet-modified"), st.name+" modifies the packet (or memory past the length of one of its slices)", rp(snap, now))
+					return
+				}
+			}
+			if prev, ok := first[st.name]; ok && prev != r {
+				c.Report(keyJoin("C18/purity", v.Type, st.name, "result-changes"), "repeating "+st.name+" returns a different result", rp(prev, r))
+				return
+			}
+			first[st.name] = r
+		}
+		c.NT()
+	}
+	forD(c, one)
+	// TWCC with deltas that are not multiples of 250us (a documented quantisation, still well-formed)
+	for _, b := range ref.Builders(c.Thorough()) {
+		if b.Type != "TransportLayerCC" {
+			continue
+		}
+		for _, off := range []int64{1, 7, 249, -1, -249} {
+			if !c.Mine() {
+				continue
+			}
+			p := b.Make().(*rtcp.TransportLayerCC)
+			ok := len(p.RecvDeltas) > 0
+			for _, d := range p.RecvDeltas {
+				nd := d.Delta + off
+				// stay inside the size class
+				if d.Type == rtcp.TypeTCCPacketReceivedSmallDelta && (nd < 0 || nd/250 > 255) || nd/250 > 32767 || nd/250 < -32768 {
+					continue
+				}
+				d.Delta = nd
+			}
+			if ok {
+				one(ref.V{P: p, Type: b.Type, Shape: b.Shape, Dev: fmt.Sprintf(" deltas%+d", off)})
+			}
+		}
+	}
+}
+
 func runC18(c *bx.Ctx) {
+	c18Purity(c)
 	c18Histories(c)
 	c18Schedules(c)
 	c18RacePass(c)
